@@ -35,7 +35,8 @@ Sat(m) == m \div 1000                       \* lnwire.MilliSatoshi.ToSatoshis
 VARIABLES
   ch,      \* the channel at quiescence (no HTLCs): opener, type bits, and per party its OWN record of
            \* the state - view[p] = p's LocalCommitment {LocalBalance, RemoteBalance, CommitFee},
-           \* dust[p][q] = the dust limit of q in p's channel config
+           \* dust[p][q] = the dust limit of q in p's channel config,
+           \* scr[m][p] = the delivery script (an index) of p in the close terms of m's RBF closer
   tx,      \* per party: the outcome of its last CreateCloseProposal+CompleteCooperativeClose
   \* --- negotiation (ChanCloser fields) ---
   ideal,   \* idealFeeSat
@@ -55,6 +56,7 @@ vars     == <<ch, tx, ideal, maxfee, last, prior, done, msg, turn, rounds, err>>
 \* a channel both parties agree about: balances in msat, dust limits and commit fee in sat
 MkChan(opener, anchors, taproot, dustA, dustB, balA, balB, cfee) ==
   [opener |-> opener, anchors |-> anchors, taproot |-> taproot,
+   scr  |-> [m \in P |-> [p \in P |-> 0]],
    dust |-> [p \in P |-> [q \in P |-> IF q = "A" THEN dustA ELSE dustB]],
    view |-> [p \in P |-> [our   |-> IF p = "A" THEN balA ELSE balB,
                           their |-> IF p = "A" THEN balB ELSE balA,
@@ -114,14 +116,26 @@ CloseAt(fee, payer) ==
   /\ tx' = [p \in P |-> BuildTx(p, fee, payer)]
   /\ UNCHANGED ch
 
-\* One closing_complete / closing_sig round of the RBF-coop flow (rbf_coop_transitions.go), coarse: the
-\* closer (LocalCloseStart) refuses to offer a fee that its settled balance - the commitment balance WITHOUT
-\* the commit fee and anchor credit, CloseChannelTerms.LocalCanPayFees - cannot pay; otherwise closer
-\* (LocalCloseStart, LocalOfferSent) and closee (RemoteCloseStart) build the close with the closer as payer.
-RbfRound(fee, closer) ==
+\* One closing_complete / closing_sig round of the RBF-coop flow (rbf_coop_transitions.go), coarse.
+\*  - The closer (LocalCloseStart) refuses to offer a fee that its settled balance - the commitment balance
+\*    WITHOUT the commit fee and anchor credit, CloseChannelTerms.LocalCanPayFees - cannot pay ("cantpay",
+\*    nothing is sent).
+\*  - Otherwise closer (LocalCloseStart, LocalOfferSent) and closee (RemoteCloseStart) build the close with the
+\*    closer as payer.
+\*  - Rounds repeat (ClosePending -> LocalCloseStart / RemoteCloseStart), started by either side, at any fee.
+\*    Every closer m keeps ONE set of close terms (CloseChannelTerms, shared by pointer between the outer
+\*    ClosingNegotiation state and both peer halves): scr[m].  A party moves to a new delivery script k only
+\*    with an offer of its own (closing_complete.closer_script); the closee adopts it
+\*    (updateAndValidateCloseTerms).  closing_complete announces <<scr[c][c], scr[c][e]>>, closing_sig
+\*    <<scr[e][c], scr[e][e]>>, and each side pays the scripts of its own terms.
+RbfOffer(fee, closer, k) ==
+  LET e == Other(closer) IN
   IF Sat(ch.view[closer].our) < fee
-    THEN tx' = [p \in P |-> Refusal("cantpay", fee, closer)] /\ UNCHANGED ch
-    ELSE CloseAt(fee, closer)
+    THEN /\ k = ch.scr[closer][closer]
+         /\ tx' = [p \in P |-> Refusal("cantpay", fee, closer)] /\ UNCHANGED ch
+    ELSE /\ ch' = [ch EXCEPT !.scr = [m \in P |-> [@[m] EXCEPT ![closer] = k]]]
+         /\ tx' = [p \in P |-> BuildTx(p, fee, closer)]
+RbfRound(fee, closer) == RbfOffer(fee, closer, ch.scr[closer][closer])
 
 \* a payment of amt msat from party f to the other, fully locked in and settled (both views move)
 Pay(f, amt) ==
@@ -240,6 +254,8 @@ RefusalCases == \A p \in Built :
                   IF tx[p].res = "cantpay" THEN Sat(ch.view[y].our) < f
                   ELSE /\ tx[p].res = "unaffordable" <=> Due(y, f, y) < 0
                        /\ tx[p].res = "nooutputs" <=> (Due(y, f, y) >= 0 /\ \A q \in P : Due(q, f, y) < OwnDust(q))
+\* both closers hold the same close terms: every transaction of every round pays the CURRENT scripts
+TermsAgree == \A m \in P : \A p \in P : ch.scr[m][p] = ch.scr[p][p]
 \* both sides build (and therefore sign) the same transaction
 SameTx == (Built = P /\ tx["A"].fee = tx["B"].fee /\ tx["A"].payer = tx["B"].payer) => tx["A"] = tx["B"]
 
